@@ -142,7 +142,7 @@ def judge(family, case, rec):
         before = [a.copy() for a in data]
         kw = {} if rs is None else {"random_state": rs}
         try:
-            folds = U.split_data(data, ratios, **kw)
+            folds = U.split_data(data, ratios, rs) if (rs is not None and rs % 2) else U.split_data(data, ratios, **kw)
         except Exception as e:
             rec.exception_violation("C17:exception-" + type(e).__name__, family, sub,
                                     "split_data raised %s for ratios %r (exact sum 1, float sum %.17g)" % (type(e).__name__, list(map(float, ratios)), float(np.sum(ratios))), e)
